@@ -297,7 +297,7 @@ def setLast (l : List Builder) (b : Builder) : List Builder :=
   | [_] => [b]
   | x :: y :: r => x :: setLast (y :: r) b
 
-/-- `buildMessage(size, fn)` followed by `signalWork()` if it returned true -/
+/-- `buildMessage(size, fn)` on a queue that is not closed, followed by `signalWork()` if it returned true -/
 def State.buildMessage (pick : GS.Alloc.Pick) (s : State) (ticket : Nat) (tx : Tx) (size : Nat) : State :=
   let s := if shouldBegin s.builders size
     then { s with builders := s.builders ++ [{ topic := s.nextTopic }], nextTopic := s.nextTopic + 1 }
@@ -312,28 +312,6 @@ def State.buildMessage (pick : GS.Alloc.Pick) (s : State) (ticket : Nat) (tx : T
     -- return the unused part of the reservation
     let s := if b'.accounted ≥ b.accounted ∧ used < size then s.release pick (size - used) else s
     if !b'.empty then { s with token := true } else s
-
-/-- `AllocateAndBuildMessage` as called by `execute` (which first checks `isClosed`) or `SendRequest` -/
-def State.build (pick : GS.Alloc.Pick) (s : State) (tx : Tx) : State :=
-  if tx.who == .response && s.closedStreams.contains tx.req then s
-  else
-    let size := match tx.who with | .response => itemsSize tx.items | .request => 0
-    let ticket := s.nextTicket
-    let s := { s with nextTicket := ticket + 1 }
-    if size == 0 then s.buildMessage pick ticket tx 0
-    else
-      let (s, evs) := s.allocStep pick (.alloc s.peer size ticket)
-      if evs.contains (.granted s.peer ticket size) then s.buildMessage pick ticket tx size
-      else { s with waiters := s.waiters ++ [{ ticket, tx, size }] }
-
-/-- the waiting caller with ticket `t` continues, if its channel has a value -/
-def State.wake (pick : GS.Alloc.Pick) (s : State) (t : Nat) : State :=
-  match s.waiters.find? (fun w => w.ticket == t && w.answer.isSome) with
-  | none => s
-  | some w =>
-    let s := { s with waiters := s.waiters.filter (·.ticket != w.ticket) }
-    if w.answer == some true then s.buildMessage pick w.ticket w.tx w.size
-    else s.emit [Event.dropped w.ticket]
 
 /-! ### the queue goroutine -/
 
@@ -391,6 +369,43 @@ def State.drain (pick : GS.Alloc.Pick) : Nat → State → State
     | (s, none) => s
     | (s, some m) => State.drain pick fuel ((s.publishError pick m).closeTopic m.topic)
 
+/-- the queue will not send any more messages: `mq.closed`, set (under `buildersLk`) by the queue
+    goroutine when it takes the `done` branch -/
+def State.closed (s : State) : Bool := s.pc == .exiting || s.pc == .exited
+
+/-- `buildMessage` as seen by callers.  On a closed queue (`rejectMessage`) the build function runs on
+    a builder of its own, whose subscribers are told `Error` + close at once, whose response streams
+    are closed and whose reservation is returned — exactly what the shutdown drain does to a queued
+    builder, so it is modelled as "build, then drain that one builder" (the queue of a closed queue is
+    empty).  Go uses a publisher of its own for this (the queue's may be shut down); the model reuses
+    the queue's publisher state, which is empty (`topics = []`) whenever the queue is closed, and for
+    that reason does not model `eventPublisher.Shutdown()` at exit (it would close no topic). -/
+def State.buildMsg (pick : GS.Alloc.Pick) (s : State) (ticket : Nat) (tx : Tx) (size : Nat) : State :=
+  if s.closed then State.drain pick 1 (s.buildMessage pick ticket tx size)
+  else s.buildMessage pick ticket tx size
+
+/-- `AllocateAndBuildMessage` as called by `execute` (which first checks `isClosed`) or `SendRequest` -/
+def State.build (pick : GS.Alloc.Pick) (s : State) (tx : Tx) : State :=
+  if tx.who == .response && s.closedStreams.contains tx.req then s
+  else
+    let size := match tx.who with | .response => itemsSize tx.items | .request => 0
+    let ticket := s.nextTicket
+    let s := { s with nextTicket := ticket + 1 }
+    if size == 0 then s.buildMsg pick ticket tx 0
+    else
+      let (s, evs) := s.allocStep pick (.alloc s.peer size ticket)
+      if evs.contains (.granted s.peer ticket size) then s.buildMsg pick ticket tx size
+      else { s with waiters := s.waiters ++ [{ ticket, tx, size }] }
+
+/-- the waiting caller with ticket `t` continues, if its channel has a value -/
+def State.wake (pick : GS.Alloc.Pick) (s : State) (t : Nat) : State :=
+  match s.waiters.find? (fun w => w.ticket == t && w.answer.isSome) with
+  | none => s
+  | some w =>
+    let s := { s with waiters := s.waiters.filter (·.ticket != w.ticket) }
+    if w.answer == some true then s.buildMsg pick w.ticket w.tx w.size
+    else s.emit [Event.dropped w.ticket]
+
 /-- one iteration of `for { select { … } }` in `runQueue`; `preferWork` resolves the select when
     both `outgoingWork` and `done` are ready -/
 def State.run (pick : GS.Alloc.Pick) (s : State) (preferWork : Bool) : State :=
@@ -405,7 +420,8 @@ def State.run (pick : GS.Alloc.Pick) (s : State) (preferWork : Bool) : State :=
         if s.sender then s.attempt pick m 0 else { s with pc := .opening m none }
     else if s.done then
       -- case <-mq.done
-      let s := if s.token then State.drain pick s.builders.length { s with token := false } else s
+      -- mq.closed = true (pc := exiting below); every queued builder is failed
+      let s := State.drain pick s.builders.length s
       let s := if s.sender then s.emit [Event.senderClosed] else s
       { s with pc := .exiting }
     else s
@@ -430,7 +446,7 @@ def State.ack (pick : GS.Alloc.Pick) (s : State) (ok : Bool) : State :=
     else (s.publishError pick m).finish m
   | .exiting =>
     let s := (s.allocStep pick (.releasePeer s.peer)).1
-    let s := s.pubShutdown
+    -- eventPublisher.Shutdown(): no topic is open (see `buildMsg`)
     { s.emit [Event.exitCallback] with pc := .exited }
   | .idle => s
   | .exited => s
